@@ -21,7 +21,7 @@ const (
 	tMice     = "call:(signedexchange/version.Version).MiceEncoding(param:e.Version)"
 	tDigest   = "call:(http.Header).Get(param:e.ResponseHeaders,call:(mice.Encoding).DigestHeaderName(" + tMice + "))"
 	tDecoder  = "call:(mice.Encoding).NewDecoder(" + tMice + ",call:bytes.NewReader(param:e.Payload)," + tDigest + ",const:16384)"
-	tSigItem  = "call:signedexchange.extractSignatureFields(call:structuredheader.ParseParameterisedList(param:e.SignatureHeaderValue)#0[_])#0"
+	tSigItem  = "call:signedexchange.extractSignatureFields(call:structuredheader.ParseParameterisedList(param:e.SignatureHeaderValue)#0[rangeidx])#0"
 )
 
 // timeGates: the three normalised comparisons of the validity window.
@@ -45,7 +45,7 @@ func timeGates(prefix, tVer, tDate, tExp string) []gate.Gate {
 func verifyGatesC01() []gate.Gate {
 	gs := []gate.Gate{
 		gate.CallOK("V.parse", "structuredheader.ParseParameterisedList", "param:e.SignatureHeaderValue"),
-		gate.CallOK("V.fields", "signedexchange.extractSignatureFields", "call:structuredheader.ParseParameterisedList(param:e.SignatureHeaderValue)#0[_]"),
+		gate.CallOK("V.fields", "signedexchange.extractSignatureFields", "call:structuredheader.ParseParameterisedList(param:e.SignatureHeaderValue)#0[rangeidx]"),
 		gate.CallOK("V.sigcall", "signedexchange.verifySignature", "param:e", "param:verificationTime", "param:certFetcher", tSigItem),
 		gate.CallOK("V.fetch", "dyn:param:fetch", "param:signature.CertUrl"),
 		gate.CallOK("V.chain", "certurl.ReadCertChain", "call:bytes.NewReader(dyn:param:fetch(param:signature.CertUrl)#0)"),
